@@ -32,6 +32,7 @@ ASSUMPTIONS = [
 MIN_NONTRIVIAL_FRACTION = 0.3
 RULE += " Added after the seeded rounds: " + 'Operations are retried under the same id (incl. equal priorities); after every step, kill and maintenance call no ended operation may own a resource; work/validate functions raise one of 16 exception types.'
 RULE += " Round 8: work behaviours `reregister` / `reregister-raise` - the operation registers the resources it holds a second time (allow_preemption flipped) and then returns or raises."
+RULE += " Round 10: the work callable is a plain function, a functools.partial or a callable object (no __name__) by turns."
 EXHAUSTIVE_NOTE = {"quick": "all request lists of length <= 3 over {r1,r2} (15) x 6 work x 4 validate x 3 background settings x 2 paths = 2160 plans, complete",
                    "thorough": "all request lists of length <= 4 over {r1,r2,zz} (121) x 6 work x 4 validate x 3 background settings x 2 paths = 17424 plans, complete"}
 
@@ -244,10 +245,10 @@ def judge(case):
 
         try:
             if cell is not None:
-                r = cell.execute("agent", tid, work_fn, resources=list(req), validate_fn=None if val == "none" else validate_fn, priority=prio)
+                r = cell.execute("agent", tid, _callable_form(work_fn, i), resources=list(req), validate_fn=None if val == "none" else validate_fn, priority=prio)
                 success = r.success
             else:
-                r = system.execute_operation(tid, "agent", work_fn, resources=list(req), validate_fn=None if val == "none" else validate_fn, priority=prio)
+                r = system.execute_operation(tid, "agent", _callable_form(work_fn, i), resources=list(req), validate_fn=None if val == "none" else validate_fn, priority=prio)
                 success = r.success
         except Exception as e:
             out.fail("raise:%s:execute" % type(e).__name__, "execute raised %s: %s" % (type(e).__name__, e), {"step": i, "op": op})
@@ -318,3 +319,19 @@ def judge(case):
                 return out
             out.label("committed")
     return out
+
+
+class _CallableWork:
+    """a work callable that is an object, not a function (no __name__, no __qualname__)"""
+
+    def __init__(self, fn):
+        self._fn = fn
+
+    def __call__(self):
+        return self._fn()
+
+
+def _callable_form(fn, i):
+    """the work callable is handed over as a plain function, a functools.partial or a callable object: all three are callables"""
+    import functools
+    return [fn, functools.partial(fn), _CallableWork(fn)][i % 3]
